@@ -65,6 +65,11 @@ subjectAltName = DNS:{san}
     leaf("wronghost", "ca1", "wrong.example")
     leaf("expired", "ca1", "localhost", startdate="20200101000000Z", enddate="20210101000000Z")
     leaf("unknownca", "ca3", "localhost")
+    # expired only moments ago (a verifier that tolerates "clock skew" would accept it)
+    import datetime
+    now = datetime.datetime.now(datetime.timezone.utc)
+    fmt = lambda t: t.strftime("%Y%m%d%H%M%SZ")
+    leaf("justexpired", "ca1", "localhost", startdate=fmt(now - datetime.timedelta(days=1)), enddate=fmt(now - datetime.timedelta(seconds=45)))
     # self-signed leaf
     sh(["openssl", "req", "-x509", "-newkey", "rsa:2048", "-nodes", "-keyout", o("selfsigned.key"), "-out", o("selfsigned.pem"), "-days", "3650",
         "-subj", "/CN=localhost", "-addext", "subjectAltName=DNS:localhost", "-addext", "basicConstraints=CA:FALSE"])
